@@ -1039,9 +1039,11 @@ pub(crate) mod b {
     /// labels of a grid over {space, -, |, +, a, 7} leaves the set of stroked points as it is
     #[test]
     fn bounded_labels_do_not_change_strokes() {
-        let alphabet = [' ', '-', '|', '+', 'a', '7'];
+        // quick tier: one label letter, two shapes (the quick check has to stay within minutes); thorough: two and three
+        let alphabet: &[char] = if thorough() { &[' ', '-', '|', '+', 'a', '7'] } else { &[' ', '-', '|', '+', 'a'] };
+        let shapes: &[(usize, usize)] = if thorough() { &[(1, 5), (2, 3), (3, 2)] } else { &[(1, 5), (2, 3)] };
         let mut n = 0u64;
-        for (rows, cols) in [(1usize, 5usize), (2, 3), (3, 2)] {
+        for &(rows, cols) in shapes {
             let cells = rows * cols;
             let total = (alphabet.len() as u64).pow(cells as u32);
             for code in 0..total {
